@@ -336,49 +336,75 @@ def eq_ord_hash(ctx, prog):
                 return fp[1][0][1]
         return None
 
-    # RelativeDIDUrl::eq
+    # RelativeDIDUrl::eq and ::cmp with all six components present (absent ones are replaced by "" through unwrap_or_default in
+    # the same code, so the pairing of operands is what matters)
+    from execu import State, VOver
+    import models as _models
+
+    def both_present():
+        st = State()
+        for leaf in ('self', 'other'):
+            base = VSym(('deref', ('leaf', leaf)), 'RelativeDIDUrl')
+            over = {}
+            for n in ('path', 'query', 'fragment'):
+                k = REL.index(n)
+                over[(None, k)] = _models.mk('Option', 'Some', VSym(('field', ('field', base.term, k, ''), 0, 'Some'), 'String'))
+            st.mem['sym:' + leaf] = VOver(base, over)
+        return st
+
+    def pairs(p, rx):
+        out = []
+        for c in p.calls:
+            if not re.search(rx, c.name):
+                continue
+            a_, b_ = comp_of(c.args[0], 'self'), comp_of(c.args[1], 'other')
+            if a_ is None and b_ is None:
+                a_, b_ = comp_of(c.args[1], 'self'), comp_of(c.args[0], 'other')
+            out.append((a_, b_, c))
+        return out
+    want = [REL.index(n) for n in ('path', 'query', 'fragment')]
+
     f = prog.one(r'did_url::<impl at [^>]*>::eq$', sig=r'^&(\w+::)*RelativeDIDUrl, &(\w+::)*RelativeDIDUrl')
-    paths, ex = A.paths(f)
+    paths, ex = A.paths(f, state=both_present())
 
     def r_req(p):
         if p.kind != 'return':
             return 'panic ' + p.msg
-        eqs = [c for c in p.find_calls(r'PartialEq.*>::eq$') if comp_of(c.args[0], 'self') is not None or comp_of(c.args[1], 'self') is not None]
-        for c in eqs:
-            a, b = comp_of(c.args[0], 'self'), comp_of(c.args[1], 'other')
-            if a is None or b is None:
-                a, b = comp_of(c.args[1], 'self'), comp_of(c.args[0], 'other')
-            if a is None or a != b:
+        ps = pairs(p, r'PartialEq.*>::eq$')
+        for a_, b_, c in ps:
+            if a_ is None or a_ != b_:
                 return 'a component of self is compared with a different component of other'
-        true_on = set(comp_of(c.args[0], 'self') if comp_of(c.args[0], 'self') is not None else comp_of(c.args[1], 'self') for c in eqs if p.took(c.ret, 'true'))
-        if isinstance(p.val, VBool):
-            all3 = true_on >= set(REL.index(n) for n in ('path', 'query', 'fragment'))
-            if p.implies(p.val.e) and not all3:
+        true_on = set(a_ for a_, b_, c in ps if p.took(c.ret, 'true'))
+        false_on = set(a_ for a_, b_, c in ps if p.took(c.ret, 'false'))
+        res = p.val
+        if isinstance(res, VBool):
+            is_true = p.implies(res.e) or (ps and z3.eq(res.e, ex.sym_bool(ps[-1][2].ret).e) and true_on | {ps[-1][0]} >= set(want) and not false_on)
+            if p.implies(res.e) and not true_on >= set(want):
                 return 'equal reported without path, query and fragment all comparing equal'
-            if p.implies(z3.Not(p.val.e)) and all3:
-                return 'unequal reported although all three components compare equal'
+            if set(a_ for a_, b_, c in ps) - set(want):
+                return 'something other than path, query, fragment takes part in equality'
+            # the result is the conjunction: either a component compared unequal (false), or it is the last comparison's outcome
+            if not false_on and not (ps and len(set(a_ for a_, _, _ in ps)) == 3):
+                return 'not all three components are compared on a path that does not fail early'
         return None
     A.require('RelativeDIDUrl::eq/conjunction-of-the-three-components', paths, r_req, replay=RB)
 
-    # RelativeDIDUrl::cmp: lexicographic over path, query, fragment
     f = prog.one(r'did_url::<impl at [^>]*>::cmp$', sig=r'^&(\w+::)*RelativeDIDUrl, &(\w+::)*RelativeDIDUrl')
-    paths, ex = A.paths(f)
+    paths, ex = A.paths(f, state=both_present())
 
     def r_rcmp(p):
         if p.kind != 'return':
             return 'panic ' + p.msg
-        cs = [c for c in p.calls if re.search(r'Ord>::cmp$', c.name) and comp_of(c.args[0], 'self') is not None]
+        ps = pairs(p, r'Ord>::cmp$')
         order = []
-        for c in cs:
-            a, b = comp_of(c.args[0], 'self'), comp_of(c.args[1], 'other')
-            if a != b:
+        for a_, b_, c in ps:
+            if a_ is None or a_ != b_:
                 return 'a component of self is ordered against a different component of other'
-            order.append(a)
-        want = [REL.index(n) for n in ('path', 'query', 'fragment')]
-        if order != want[:len(order)]:
+            order.append(a_)
+        if order != want[:len(order)] or not order:
             return 'components are not compared in the order path, query, fragment'
         t = strip(p.term())
-        if not cs or t != cs[-1].ret:
+        if t != ps[-1][2].ret:
             return 'result is not the outcome of the last component comparison made'
         return None
     A.require('RelativeDIDUrl::cmp/lexicographic-over-the-components-eq-compares', paths, r_rcmp, replay=RB)
@@ -635,8 +661,7 @@ def main(ctx):
                     'non-ASCII input beyond the character-class kernels']
     guarded(ctx, 'character classes', 'M', lambda: kernels(ctx, prog))
     guarded(ctx, 'constructor / setter audit', 'M', lambda: audits(ctx, prog))
-    if os.environ.get('VERIF_DRAFT') == '1':
-        guarded(ctx, 'Eq / Ord / Hash of DID URLs', 'M', lambda: eq_ord_hash(ctx, prog))
+    guarded(ctx, 'Eq / Ord / Hash of DID URLs', 'M', lambda: eq_ord_hash(ctx, prog))
     guarded(ctx, 'URL segment scanner', 'M', lambda: segment_scanner(ctx, prog))
     guarded(ctx, 'third-party parser cursor', 'M', lambda: parser_cursor(ctx))
     if os.environ.get('VERIF_SKIP_K') != '1':
